@@ -10,7 +10,7 @@ for c in CLAUSES:
 
 def run(tier, seed):
     return opscheck.run_property(
-        "C07", tier, seed, design=opscheck.design_ops("C07", None), clauses_for=lambda cfg: CLAUSES, n_quick=12, n_thorough=120,
+        "C07", tier, seed, design=opscheck.design_ops("C07", None), clauses_for=lambda cfg: CLAUSES, n_quick=24, n_thorough=200,
         gen_kw=[{}, {"nmax": 2}], generator=maxdrive.gen, observe=maxdrive.observe,
         rule="9 grid classes x seeded spacings x D in {0,1,3,1000} per face x exactly divergence-free velocity fields "
              "(uniform Cartesian, q/r, q/r^2, discrete stream functions with integer node values, zero wall-normal "
